@@ -35,7 +35,8 @@ CHECKS = {
              "ignored; absent stays absent; single values wrapped at every list level. The hand-written impl "
              "model is tied to /repo by running generated (types x defaults x JSON values x presence) requests "
              "through the real engine and comparing info.variable_values / error attribution inside Coq with "
-             "both models; leaves are the scalar definitions regenerated from source.",
+             "both models; leaves are the scalar definitions regenerated from source. "
+             "45 absolute leaf expectations (value -> refused / delivered value with its Python type; top level, list items, input-object fields; two orders) guard the scalar input rules at variable positions independently of the models, which take those rules from the source.",
         note="Trusted: Coq kernel, correspondence harness (generators, printer), parser stand-in, translator for "
              "scalar leaves; directive hooks absent from this model (C13); custom scalars are oracle triples.",
         design="4 C04"),
@@ -62,7 +63,8 @@ CHECKS = {
              "input field names unique; nothing is assumed of input-field defaults since the repair a67e006, found by this proof) and, for "
              "variables NESTED in list/object literals, under the premise that they are well-typed for their position (the "
              "engine does not apply 5.8.5 there: known finding C07-nested-variable-usage). "
-             "DIRECTIVE positions are tied to field positions on the engine: every request is also executed with its arguments moved to a FIELD directive whose hook records directive_args, and both texts a second time on the same engine with other runtime values (parse-cache hit); hook and resolver must receive the same dictionary per spelling.",
+             "DIRECTIVE positions are tied to field positions on the engine: every request is also executed with its arguments moved to a FIELD directive whose hook records directive_args, and both texts a second time on the same engine with other runtime values (parse-cache hit); hook and resolver must receive the same dictionary per spelling. "
+             "A list position given ONE value without brackets (with a variable inside the value) is one of the spellings.",
         note="Trusted: Coq kernel, correspondence harness, parser stand-in, scalar translator; directive "
              "argument positions use the same coerce_arguments code path and are exercised by C13's check.",
         design="4 C05"),
@@ -82,7 +84,8 @@ CHECKS = {
              "the runtime type) and compared inside Coq on data, errors and the resolver call log; each observation is also "
              "judged by the specification executor. Also proved (Proofs/ExecCalls.v): the resolver invocations of a request are at pairwise different response paths (no resolver is called twice for one response key and parent), for every configuration. PARTIAL: equality of the resolver call log with the specification's is "
              "decided per run. "
-             "Parents of fields without resolver come as dicts, attribute objects, subscript-only records (not Mappings: sqlite3.Row style) and attribute objects whose attribute access raises (hand witnesses and fault kinds rec_parent / attr_raises).",
+             "Parents of fields without resolver come as dicts, attribute objects, subscript-only records (not Mappings: sqlite3.Row style) and attribute objects whose attribute access raises (hand witnesses and fault kinds rec_parent / attr_raises). "
+             "Every request is executed a second time on the same engine and must be answered identically (response and resolver invocations).",
         note="Trusted: Coq kernel, correspondence harness + generators, parser stand-in; directive hooks other than "
              "@skip/@include absent (C13); errors and call log compared as multisets; message texts not compared.",
         design="4 C01"),
@@ -121,7 +124,8 @@ CHECKS = {
              "serialisability. Also proved (Proofs/ExecJson.v): conforming data is a JSON value whenever every scalar's "
              "serialiser produces JSON values, which the five built-in scalars as regenerated from /repo do "
              "(C03_builtin_schema_data_is_json), and their leaves have their wire type: Int within 32 bits, Float finite, "
-             "String/ID text, Boolean a boolean (C03_builtin_leaves_have_their_wire_type).",
+             "String/ID text, Boolean a boolean (C03_builtin_leaves_have_their_wire_type). "
+             "The adversarial universe puts values of OTHER enums (sibling enums, the introspection enums) at enum positions; the hand schema has enum fields with such witnesses.",
         note="Trusted: as C01. Numeric types outside the stated universe (Decimal, Fraction, numpy) are not generated.",
         design="4 C03"),
     "C08": dict(
@@ -177,7 +181,8 @@ CHECKS = {
              "shared engine, fingerprints the cached DocumentNodes, and compares each in-flight request with run_sched of "
              "the model on that request alone under the projected schedule. PARTIAL: that the engine shares no other mutable "
              "state between requests is established by these runs, not by proof. "
-             "The invalid / valid document family of C16 is played in several orders on one engine against references computed in a fresh INTERPRETER (state kept on process-global rule objects would corrupt an in-process reference).",
+             "The invalid / valid document family of C16 is played in several orders on one engine against references computed in a fresh INTERPRETER (state kept on process-global rule objects would corrupt an in-process reference). "
+             "Every second history runs on an engine without parse cache (documents are freed between requests); the family has documents with literal arguments.",
         note="Trusted: as C08; baked schema, parse cache and parsed documents are assumed read-only by the model (checked by "
              "fingerprint and by the afterwards-runs).",
         design="4 C15"),
@@ -276,7 +281,8 @@ CHECKS = {
              "handling and the executor walking schema objects are exercised, not modelled. Default values are compared as "
              "VALUES: the reported defaultValue text, parsed back, must be the declared default (every schema carries an input "
              "type with defaults of every kind, strings needing escapes included). "
-             "String defaults and @deprecated reasons contain an escaped backslash in front of every escape letter and of uXXXX (this exposed and now guards the repaired defect e460bec).",
+             "String defaults and @deprecated reasons contain an escaped backslash in front of every escape letter and of uXXXX (this exposed and now guards the repaired defect e460bec). "
+             "Generated models contain objects that gain an interface through an extension without field block.",
         note="Trusted: Coq kernel, generators, SDL printer. __typename = concrete object type is covered by C01's check.",
         design="4 C11"),
     "C12": dict(
@@ -303,7 +309,8 @@ CHECKS = {
              "CURRENT source on every run and proved equal to the ones the model transcribes (Proofs/Wiring.v). "
              "`extend schema` naming an operation whose root type is already defined is refused "
              "(C12_schema_operation_redefinition_refused). "
-             "Syntax rewrites include the productions that demand at least one element: extensions adding nothing (every kind, first / last in the document), bare `extend schema` / `extend scalar`, empty value / field / argument / location lists.",
+             "Syntax rewrites include the productions that demand at least one element: extensions adding nothing (every kind, first / last in the document), bare `extend schema` / `extend scalar`, empty value / field / argument / location lists. "
+             "Every generated model starts its extensions with one directive-only extension per kind: what follows must still be merged and validated.",
         note="Trusted: Coq kernel, generators, SDL printer; the lark grammar (syntax verdicts) and inspect (awaitability) are "
              "oracles.",
         design="4 C12"),
@@ -345,7 +352,8 @@ CHECKS = {
              "(well-formed payloads, nulls, garbage), compares each response with the engine's own execute("
              "initial_value=event), with the implementation model, with the specification executor, and checks the "
              "source is started once with the model's coerced arguments. Validation in front of the executor (Model/SubscribeValidated.v): a document the walk refuses -- e.g. two different root response keys through fields and inline fragments -- is answered with one errors-only response and no stream is created; an accepted one is executed unchanged. PARTIAL: aclose/cancellation are runtime. "
-             "A hand scenario uses the library's Date / DateTime scalars (coercion not idempotent) in list and input-object variables: every event must be answered like execute(initial_value=event) with a fresh copy of the variables.",
+             "A hand scenario uses the library's Date / DateTime scalars (coercion not idempotent) in list and input-object variables: every event must be answered like execute(initial_value=event) with a fresh copy of the variables. "
+             "A sequence of requests over the same subscription texts on one engine uses values that are equal in Python but of another type (True / 1 / 1.0): each is refused or answered on its own.",
         note="Trusted: as C01; the async-generator protocol is outside the model.",
         design="4 C14"),
     "C18": dict(
@@ -397,7 +405,8 @@ CHECKS = {
              "for pairs in thorough, sampled otherwise), each in a fresh process, and comparing each co-resident "
              "engine's answers (queries, introspection, a subscription, two rounds) and its registry entry with the "
              "same bundle built alone in a fresh process. PARTIAL: import caching of user modules is runtime. "
-             "Bundles differ in definitions under the same names: an argument mandatory in one bundle and optional in another (on a field and on a directive), an enum with other values.",
+             "Bundles differ in definitions under the same names: an argument mandatory in one bundle and optional in another (on a field and on a directive), an enum with other values. "
+             "Twin bundles: two schema names cooked from byte-identical SDL whose extensions of every kind carry a directive.",
         note="Trusted: Coq kernel, harness; state kept on type objects outside the registry is covered only by the "
              "differential runs.",
         design="4 C17"),
